@@ -339,6 +339,7 @@ def run(ctx):
     r5 = ctx.rule('R5', 'thresholds compared with stored (UTC) timestamps are '
                   'computed from a UTC clock', 'WMW (time sources)')
     from mstatic.rules import shared
+    shared.timestamp_columns_are_callables(ctx, r5)
     shared.utc_time_sources(
         ctx, r5, ['mistral.services.expiration_policy',
                   'mistral.db.v2.sqlalchemy.api',
